@@ -226,6 +226,16 @@ class Sym(object):
         self.job.bounds["symbolic_fs"] = {"paths": len(entries)}
         return root, dict((rel, SymBool(bits[rel])) for rel in entries)
 
+    def symbolic_file(self, name, max_size):
+        """a file of symbolic size (content not modelled); returns its path"""
+        t = z3.Int("in." + name)
+        self.I.add_side([t >= 0, t <= max_size])
+        self.vars[name] = ("int", t)
+        self.job.bounds["file:" + name] = {"max_size": max_size}
+        path = "/psx-symfile/" + name
+        self.I.options.setdefault("symfiles", {})[path] = t
+        return path, SymInt(t)
+
     def scratch_dir(self):
         """a fresh real directory (outside /repo and /verif), removed when the job ends"""
         import tempfile
